@@ -50,6 +50,12 @@ SegsEq(a, b) == \/ Norm(a) = Norm(b)
                 \/ /\ SegsLen(a) = SegsLen(b)
                    /\ \A i \in 1 .. SegsLen(a) : SegsByte(a, i) = SegsByte(b, i) /\ SegsByte(a, i) >= 0
 
+\* pair lists (maps) as sets, with semantic equality of keys and values
+PairIn(p, ps) == \E x \in DOMAIN ps : SegsEq(p[1], ps[x][1]) /\ SegsEq(p[2], ps[x][2])
+SamePairs(a, b) == /\ Len(a) = Len(b)
+                   /\ \A x \in DOMAIN a : PairIn(a[x], b)
+                   /\ \A x \in DOMAIN b : PairIn(b[x], a)
+
 \* ---- schemas -------------------------------------------------------------
 \* field kinds: "str" (STRING, tag 11), "i32" (tag 8), "map" (MAP<STRING,STRING>, tag 13, optional)
 Schema(name) ==
@@ -83,7 +89,7 @@ ReadPairs(in, i, n, acc) ==
             IF ~v.ok THEN [ok |-> FALSE, i |-> i, pairs |-> acc, cause |-> v.cause]
             ELSE LET kk == Norm(Slice(in, k.val.at, k.val.len))
                      vv == Norm(Slice(in, v.val.at, v.val.len))
-                     rest == SelectSeq(acc, LAMBDA p : p[1] # kk)
+                     rest == SelectSeq(acc, LAMBDA p : ~SegsEq(p[1], kk))
                  IN ReadPairs(in, i + k.n + v.n, n - 1, Append(rest, <<kk, vv>>))
 
 RECURSIVE ReadFields(_, _, _, _)
@@ -139,8 +145,8 @@ SameVal(name, a, b) ==
      LET f == Schema(name)[j].f IN
      IF Schema(name)[j].k = "map"
      THEN /\ a[f].set = b[f].set
-          /\ Len(a[f].pairs) = Len(b[f].pairs)
-          /\ {a[f].pairs[x] : x \in DOMAIN a[f].pairs} = {b[f].pairs[x] : x \in DOMAIN b[f].pairs}
+          /\ SamePairs(a[f].pairs, b[f].pairs)
+     ELSE IF Schema(name)[j].k = "str" THEN SegsEq(a[f], b[f])
      ELSE a[f] = b[f]
 
 \* normalise a logged value (strings as segment lists, map as pairs) for comparison
